@@ -211,6 +211,11 @@ def _rio_reproject(
     # GDAL support for int8 is patchy, warp doesn't support it, so we need to convert to int16
     src, src_is_bool = _alias_or_convert(src)
     _dst, _ = _alias_or_convert(dst)
+    if src_is_bool:
+        # pixel values were stretched from {0, 1} to {0, 255}: nodata values have to follow
+        src_nodata, dst_nodata = (
+            None if v is None else (255 if v else 0) for v in (src_nodata, dst_nodata)
+        )
 
     rasterio.warp.reproject(
         src,
